@@ -59,10 +59,10 @@ class InterruptableThread(threading.Thread):
         """
         Trigger a thread ending exception!
         """
-        # The thread may be ending at this very moment; then there is
-        # nothing left to interrupt
-        if not self.is_alive():
-            return
+        # The thread may be ending at this very moment; then it is no longer
+        # listed (is_alive() is not asked: an exception that interrupted a
+        # join() on this thread makes CPython report it as stopped while it
+        # is still running)
         for thread_id, thread in list(threading._active.items()):
             if thread is self:
                 try:
@@ -95,20 +95,30 @@ def timeout(duration, func, *args, **kwargs):
 
     target_thread = InterruptableThread(func, args, kwargs)
     target_thread.start()
-    target_thread.join(duration)
+    given_up = False
+    try:
+        target_thread.join(duration)
 
-    if target_thread.is_alive():
-        if on_timeout is not None and on_timeout() is False:
-            # Finished at the very last moment: a normal completion after all
-            target_thread.join()
-        else:
-            # From here on the thread is given up on, even if it ends by
-            # itself before we get to interrupt it
+        if target_thread.is_alive():
+            if on_timeout is not None and on_timeout() is False:
+                # Finished at the very last moment: a normal completion after all
+                target_thread.join()
+            else:
+                # From here on the thread is given up on, even if it ends by
+                # itself before we get to interrupt it
+                target_thread.terminate()
+                given_up = True
+                timeout_exception = TimeoutError('Your code took too long to run '
+                                                 '(it was given {} seconds); '
+                                                 'maybe you have an infinite loop?'.format(duration))
+                raise timeout_exception
+    except BaseException:
+        # We may be interrupted ourselves while we wait (we run under a time
+        # limit further out, e.g., a student file importing another one):
+        # do not leave our own thread running behind us
+        if not given_up:
             target_thread.terminate()
-            timeout_exception = TimeoutError('Your code took too long to run '
-                                             '(it was given {} seconds); '
-                                             'maybe you have an infinite loop?'.format(duration))
-            raise timeout_exception
+        raise
     if target_thread.exc_info[0] is not None:
         ei = target_thread.exc_info
         # Re-raise the very exception object: constructing a new instance
